@@ -157,6 +157,7 @@ func FromSem(ctx *Ctx, rep *sem.Report, rule string, minDecided int, assumptions
 		"child_restarts":        rep.Restarts,
 		"race_reports":          rep.RaceReports,
 		"model_selfcheck_drops": rep.ModelSelfFail,
+		"decided_by_stratum":    rep.ByStratum,
 	}
 	if len(rep.Samples) == 0 {
 		cov["samples"] = []any{"none"}
